@@ -93,7 +93,8 @@ def _check(prop, tier, only) -> int:
         except _AE as e:
             stopped = e  # the shared rules may still explain why (e.g. a construct outside the kernel fragment): run them, then re-raise
         try:
-            shared.apply(ctx, prop)
+            if not os.environ.get('VERIF_NO_SHARED'):  # development only (tools/refac_eval.sh): a rule's verdict is the same under every name it is applied
+                shared.apply(ctx, prop)
         except _AE:
             if stopped is None:
                 raise
